@@ -70,7 +70,7 @@ def gen_shared_head(rng):
     raise RuntimeError("no program")
 
 
-def gen_sibling(rng):
+def gen_sibling(rng, variant=None):
     """a feature that is ONE output of a multi-output op while a head uses a SIBLING output directly
     (around the feature); the order and depth of the two uses vary, so that the walk meets the
     excluded gradient edge before or after the live one"""
@@ -80,7 +80,7 @@ def gen_sibling(rng):
     t = p.op(rng.choice(["scale", "square"]), [x], **({"c": 2} if False else {})) if False else None
     t = p.op("scale", [x], c=rng.choice([2, 3])) if rng.random() < 0.5 else p.op("square", [x])
     outs = p.op("unbind", [t])
-    v = rng.random()
+    v = rng.random() if variant is None else [0.1, 0.45, 0.8, 0.8][variant % 4]
     if v < 0.3:
         # CHAINS OF SINGLE-INPUT FUNCTIONS across a multi-output node, where the output number changes along
         # the chain: (i) the feature is output >= 1 of the trunk's unbind and a head reaches it through
@@ -146,7 +146,9 @@ def gen_sibling(rng):
 
 
 def gen_case(rng, idx):
-    mode = idx % 7
+    # eight slots per round: the multi-output family (mode 6) twice, its three variants in turn (the "around"
+    # variant, whose outcome depends on the order in which the walk meets the two edges, twice as often)
+    mode = [0, 1, 2, 3, 4, 5, 6, 6][idx % 8]
     if mode in (0, 1):
         outs = []
         while not outs:
@@ -164,7 +166,7 @@ def gen_case(rng, idx):
         prog, feats, losses = gen_shared_head(rng)
         kind, spec = "mtl", {"features": feats, "losses": losses, "retain": True}
     elif mode == 6:
-        prog, feats, losses = gen_sibling(rng)
+        prog, feats, losses = gen_sibling(rng, variant=(idx // 8) * 2 + (idx % 8 == 7))
         kind, spec = "mtl", {"features": feats, "losses": losses, "retain": True}
     else:
         prog, feats, losses, tasks, shared = ajlib.gen_mtl(rng, overlap=(mode == 5))
